@@ -28,6 +28,9 @@ Record c12_case := mkCase {
   cs_sched_probes : list (string * string);        (* (restart schedule, probe): differences that appear only when the
                                                       export is re-imported later / higher and both chains then get the
                                                       same further blocks at the same later times *)
+  cs_order : list (string * string * string);      (* (variant, store | "probe" | "import", what): the same genesis with the
+                                                      entries of every record list reversed / shuffled builds a different
+                                                      store or behaves differently afterwards *)
   cs_before : snap; cs_after : snap }.
 
 (* ---------------------------------------------------------------- helpers *)
@@ -119,6 +122,13 @@ Definition case_matches (c : c12_case) : bool :=
        && negb (gov_export_panics (registry_populated c))
        (* the proposal model re-queues Pending / Enactment proposals whatever the genesis time: when InitGenesis
           rebuilds the queues, no restart schedule may change what happens to proposals *)
+       (* the models of the gov and multistaking imports do not depend on the order of the genesis lists
+          (Proofs: import_*_order_independent) *)
+       && negb (existsb (fun o => (str_in (snd (fst o)) ["customgov"; "multistaking"; "import"]
+                                   || (String.eqb (snd (fst o)) "probe"
+                                       && str_in (snd o) ["tx:undelegate-new-id"; "tx:new-staking-pool-id"; "query:perm-check";
+                                                          "query:proposal-results-after-voting-and-enactment-time"; "query:max-tx-fee";
+                                                          "block:claim-matured-undelegations"]))%bool) (cs_order c))
        && (negb gov_rebuilds_queues ||
            negb (existsb (fun sp => (String.eqb (snd sp) "query:proposal-results-after-voting-and-enactment-time"
                                      || String.eqb (snd sp) "query:max-tx-fee")%bool) (cs_sched_probes c)))
@@ -151,6 +161,7 @@ Definition case_clauses (c : c12_case) : list string :=
       ++ map (fun m => ("export2:" ++ m)%string) (cs_export2 c)
       ++ map (fun p => ("diverge:" ++ p)%string) (cs_probes c)
       ++ map (fun sp => ("diverge@" ++ fst sp ++ ":" ++ snd sp)%string) (cs_sched_probes c)
+      ++ map (fun o => ("order@" ++ fst (fst o) ++ ":" ++ (if String.eqb (snd (fst o)) "probe" then "probe:" else if String.eqb (snd (fst o)) "import" then "import-" else "") ++ snd o)%string) (cs_order c)
   end.
 
 Fixpoint violations_from (n : nat) (cs : list c12_case) : list (nat * list string) :=
